@@ -3,7 +3,7 @@ BOUNDS = {
     'quick': 'static_set<Tracked,CAP> and flat_set<Tracked, static_vector<Tracked,CAP>>: one operation from every size; static_set at capacity 2, flat_set at capacity 3 (copy+move keys, every size NA, second set / source block size NB in {0,1}); move-only and copy-only keys at capacity 2 from size 1; '
              ' key values symbolic (pre-state keys pairwise distinct), erase positions symbolic (case-split)',
     'thorough': 'static_set: copy+move keys at capacity 2 (every NB) and 3 (NB = 0), move-only and copy-only at capacity 2 (every NB); flat_set: copy+move keys at capacity 3 (every NB), '
-                'move-only and copy-only at capacity 3 (NB in {0,1}); every size NA',
+                'move-only and copy-only at capacity 3 (NB in {0,1}); keys with defaulted (trivial) assignment but user-provided constructors/destructor at capacity 2 (both sets, every NB); every size NA',
 }
 ASSUMPTIONS = [
     'C03: erase positions are valid iterators (pos < size(), first <= last <= size()); inserting a NEW key into a FULL flat_set over static_vector is outside its precondition '
@@ -42,7 +42,7 @@ def queries(tier, prop='C03'):
         only_na = {1: (1,), 2: (1,)}   # quick: move-only and copy-only keys from the middle size only
     else:
         grid = [('ss_', 0, 2, (0, 1, 2)), ('ss_', 0, 3, (0,)), ('ss_', 1, 2, (0, 1, 2)), ('ss_', 2, 2, (0, 1, 2))]
-        grid += [('fs_', 0, 3, (0, 1, 2, 3)), ('fs_', 1, 3, (0, 1)), ('fs_', 2, 3, (0, 1))]   # flat_set capacity 4: swap_self from size 3 had no verdict in 900 s, bound reduced to 3
+        grid += [('fs_', 0, 3, (0, 1, 2, 3)), ('fs_', 1, 3, (0, 1)), ('fs_', 2, 3, (0, 1)), ('ss_', 3, 2, (0, 1, 2)), ('fs_', 3, 2, (0, 1, 2))]   # flat_set capacity 4: swap_self from size 3 had no verdict in 900 s, bound reduced to 3
     if ub:
         grid = [('ss_', 0, 2, (0, 1)), ('fs_', 0, 2, (0, 1))]
         only_na = {0: (1,)} if tier == 'quick' else {}
